@@ -58,6 +58,28 @@ func TestReplay(t *testing.T) {
 	}
 	rec := vstat.New(rf.Property, "replay")
 	defer rec.Flush(true)
+	if rf.Kind == "stress" {
+		var ssc StressScenario
+		smsg := ""
+		if err := json.Unmarshal(rf.Scenario, &ssc); err != nil || ssc.Targets < 1 {
+			smsg = fmt.Sprintf("bad scenario: %v", err)
+		} else {
+			for i := 0; i < 20 && smsg == ""; i++ { // the schedule is not reproducible: try a few times
+				if _, err := runStress(t, &ssc); err != nil {
+					smsg = err.Error()
+				}
+			}
+		}
+		if smsg != "" {
+			rec.AddViolation(json.RawMessage(rf.Scenario), rf.Kind, rf.Class, "%s", smsg)
+			fmt.Println("REPLAY-FAIL:", smsg)
+			t.Fail()
+			return
+		}
+		rec.Case(json.RawMessage(rf.Scenario), false, "replayed")
+		fmt.Println("REPLAY-OK")
+		return
+	}
 	var sc Scenario
 	msg := ""
 	if err := json.Unmarshal(rf.Scenario, &sc); err != nil || sc.Targets < 1 {
@@ -73,4 +95,33 @@ func TestReplay(t *testing.T) {
 	}
 	rec.Case(json.RawMessage(rf.Scenario), false, "replayed")
 	fmt.Println("REPLAY-OK")
+}
+
+var stressN = flag.Int("c04.stress", 300, "number of free-running workloads in TestC04Stress")
+
+// TestC04Stress: free-running workloads (real scheduler, no gates) inside a
+// synctest bubble; built with -race by the driver.
+func TestC04Stress(t *testing.T) {
+	if !vstat.Enabled("C04") {
+		t.Skip()
+	}
+	rec := vstat.New("C04", "stress")
+	rec.SetRequested(*stressN)
+	rec.Note("free-running part: workloads are a function of the seed, schedules are the real scheduler's and cannot be replayed; a replay re-runs the workload")
+	for i := 0; i < *stressN; i++ {
+		sc := genStress(*vstat.Seed*1_000_003 + int64(i))
+		rec.Current(sc)
+		overlap, err := runStress(t, sc)
+		labels := []string{"free-running"}
+		if len(sc.Writers) > 1 {
+			labels = append(labels, "multiple-writers")
+		}
+		rec.Case(sc, overlap && len(sc.Subs) > 1, labels...)
+		if err != nil {
+			rec.AddViolation(sc, "stress", "oracle", "%v", err)
+			t.Fail()
+			break
+		}
+	}
+	rec.Flush(true)
 }
